@@ -3412,3 +3412,60 @@ Proof.
   - apply task_step_not_running; [apply HF1|].
     pose proof (run_attempt_same s t a) as [Ht _]. rewrite E1 in Ht. cbn [fst] in Ht. rewrite Ht. exact Hin.
 Qed.
+
+(* ====================================================================== *)
+(* C14 misbehaviour_flagged: the flagging itself                           *)
+(* ====================================================================== *)
+(* notification path: a reachable tower without a record of l and without a stored proof answers with a signature of
+   another key: the proof is stored and the tower is misbehaving in memory; nothing panics *)
+Lemma flagged_on_notification s l t st :
+  FInv s -> poisoned s = false -> knownc (f_c s) t -> is_reachable st = true ->
+  wt_has_appointment (f_c s) t l = false -> ~ Mrow (c_db (f_c s)) t ->
+  let s' := fst (rev_tower s l t st AWrongKey) in
+  snd (rev_tower s l t st AWrongKey) = None /\ Mrow (c_db (f_c s')) t /\ stat (f_c s') t = Some Misbehaving /\
+  Rrow (c_db (f_c s')) t l /\ In (ReqAdd t l) (f_log s').
+Proof.
+  intros HF Hp Hk Hr Hha Hm. pose proof HF as [HI _]. unfold rev_tower. rewrite Hp, Hha, Hr. cbn zeta.
+  pose proof (has_appointment_iff _ t l HI Hp Hk) as Hiff.
+  assert (NR : ~ Rrow (c_db (f_c s)) t l) by (intros H; rewrite Hha in Hiff; assert (false = true) by (apply Hiff; tauto); discriminate).
+  pose proof (flag_ok (f_c s) t l START_BLOCK USER_SIG SIG_OTHER (other_id t) HI Hp Hk NR Hm) as Hok.
+  change (f_c (log_req s (ReqAdd t l))) with (f_c s).
+  destruct (wt_flag_misbehaving_tower (f_c s) t l START_BLOCK USER_SIG SIG_OTHER (other_id t)) as [c2 r] eqn:E. cbn [snd] in Hok. subst r.
+  destruct (prim_flag _ _ _ _ _ _ _ _ _ HI Hp E) as [_ [_ [_ [[_ [_ Hne]]|[_ [_ [_ [Hst [T5 [T6 _]]]]]]]]]]; [contradiction Hne; reflexivity|].
+  cbn [fst snd lift_site f_c wr_c f_log log_req]. split; [reflexivity|]. split; [apply (Mrow_app _ _ _ _ _ t T6); right; reflexivity|].
+  split; [rewrite Hst, N.eqb_refl; reflexivity|]. split; [apply (Rrow_app _ _ _ _ _ _ _ t l T5); right; split; reflexivity|].
+  apply in_or_app. right. left. reflexivity.
+Qed.
+
+(* retry path: the task's Err arm for a wrong-key reply about a locator of its set, tower not yet flagged *)
+Lemma flagged_on_retry s t l more :
+  FInv s -> poisoned s = false -> knownc (f_c s) t -> In l (retrier_pending s t) -> ~ Mrow (c_db (f_c s)) t ->
+  let s' := fst (task_step s t (RunErr (EMisbehaving l)) more) in
+  snd (task_step s t (RunErr (EMisbehaving l)) more) = OutFailed (EMisbehaving l) /\
+  Mrow (c_db (f_c s')) t /\ stat (f_c s') t = Some Misbehaving.
+Proof.
+  intros HF Hp Hk Hl Hm. pose proof HF as [HI [[_ [U _]] [HV _]]]. destruct (HV Hp) as [_ [V2 _]].
+  assert (HP : Prow (c_db (f_c s)) t l) by (apply V2; [exact Hk|]; rewrite tracked_eq; apply in_or_app; left; exact Hl).
+  assert (HR : ~ Rrow (c_db (f_c s)) t l) by (destruct (U t l Hm) as [A _]; tauto).
+  unfold task_step. cbn [is_permanent negb andb]. rewrite f_c_retrier_set_status.
+  pose proof (flag_ok (f_c s) t l START_BLOCK USER_SIG SIG_OTHER (other_id t) HI Hp Hk HR Hm) as Hok.
+  destruct (wt_flag_misbehaving_tower (f_c s) t l START_BLOCK USER_SIG SIG_OTHER (other_id t)) as [c2 r] eqn:E. cbn [snd] in Hok. subst r.
+  destruct (prim_flag _ _ _ _ _ _ _ _ _ HI Hp E) as [_ [_ [_ [[_ [_ Hne]]|[_ [_ [_ [Hst [T5 [T6 _]]]]]]]]]]; [contradiction Hne; reflexivity|].
+  cbn [lift_site fst snd f_c end_task set_tasks wr_c]. split; [reflexivity|]. split; [apply (Mrow_app _ _ _ _ _ t T6); right; reflexivity|].
+  rewrite Hst, N.eqb_refl. reflexivity.
+Qed.
+
+(* second refutation of "no later request": the manager starts a stopped retrier of a tower flagged in the meantime
+   and Retrier::start overwrites the misbehaving status with temporary unreachable (model witness; needs a sub-second
+   race in the real plugin) *)
+Definition w_c14b_ops : list fop :=
+  [FRegister 0 (w_good 1); FRevocation 1 [] [(0, AConnErr)]; FManagerTick []; FManagerTick [];
+   FRevocation 2 [] []; FRetrierRun 0 [w_att [AAccept 110] true]; FManagerTick [];
+   FRevocation 3 [] [(0, AWrongKey)]; FManagerTick []; FRetrierRun 0 [w_att [AAccept 110] true]].
+
+Lemma misbehaviour_flagged_refuted_guarded :
+  exists ops1 ops2 t, let s1 := frun f_init ops1 in let s2 := frun s1 ops2 in
+    ops_ok f_init (ops1 ++ ops2) = true /\
+    exists_misbehaving_proof (c_db (f_c s1)) t = true /\
+    existsb (is_add_to t) (skipn (length (f_log s1)) (f_log s2)) = true.
+Proof. exists (firstn 8 w_c14b_ops), (skipn 8 w_c14b_ops), 0. vm_compute. repeat split. Qed.
